@@ -125,6 +125,57 @@ Definition obs_final_eqb (a b : obs) : bool :=
   eqb_of view_dec (ob_hosts a) (ob_hosts b) && eqb_of view_dec (ob_lhosts a) (ob_lhosts b) &&
   eqb_of (list_eq_dec resource_dec) (ob_res a) (ob_res b).
 
+(* an Ingress may win some of its hosts and lose others: the hosts an Ingress is rendered with (ValidHosts)
+   are exactly those of its hosts that the host map assigns to it *)
+Definition valid_hosts_ok (ob : obs) : bool :=
+  forallb (fun r => match r with
+                    | RIng ic => forallb (fun hb : string * bool =>
+                                   Bool.eqb (snd hb) (match lookup (fst hb) (ob_hosts ob) with
+                                                      | Some k => String.eqb k (rkey r) | None => false end))
+                                         (ic_valid_hosts ic)
+                    | _ => true end) (ob_res ob).
+
+Fixpoint valid_hosts_run (os : list obs) (i : Z) : Z :=
+  match os with
+  | [] => 0
+  | o :: r => if valid_hosts_ok o then valid_hosts_run r (i + 1) else i
+  end.
+
+(* "at every moment": the controller applies the changes of a batch one at a time (each with its own
+   reload); after every single change no host may be configured for two resources *)
+Definition served_hosts (r : resource) : list string :=
+  match r with
+  | RIng ic => filter_map (fun hb : string * bool => if snd hb then Some (fst hb) else None) (ic_valid_hosts ic)
+  | RVS vc => [v_host (vc_vs vc)]
+  | RTS tc => if is_passthrough (tc_ts tc) then [t_host (tc_ts tc)] else []
+  end.
+
+Fixpoint nodup_str (l : list string) : bool :=
+  match l with
+  | [] => true
+  | x :: r => negb (existsb (String.eqb x) r) && nodup_str r
+  end.
+
+Definition apply_change1 (sh : smap resource) (c : change) : smap resource :=
+  match c_op c with
+  | Delete => remove (rkey (c_res c)) sh
+  | AddOrUpdate => insert (rkey (c_res c)) (c_res c) sh
+  end.
+
+Fixpoint transient_changes (sh : smap resource) (cs : list change) : bool * smap resource :=
+  match cs with
+  | [] => (true, sh)
+  | c :: r => let sh' := apply_change1 sh c in
+              if nodup_str (flat_map (fun kv => served_hosts (snd kv)) sh') then transient_changes sh' r else (false, sh')
+  end.
+
+Fixpoint transient_run (sh : smap resource) (os : list obs) (i : Z) : Z :=
+  match os with
+  | [] => 0
+  | o :: r => let '(ok, sh') := transient_changes sh (ob_changes o) in
+              if ok then transient_run sh' r (i + 1) else i
+  end.
+
 (* one case: main history with per-step observations, alternatives with final observations only.
    row: [id; mask of model/implementation disagreements along the main history;
          mask of disagreements on the final states (main and alternatives);
@@ -144,7 +195,7 @@ Definition arb_case (id : Z) (c : cfg) (es : list event) (os : list obs) (final 
   let spl_alts := forallb (fun a => lhosts_spec_ok (objs_after (fst a)) (ob_lhosts (snd a))) alts in
   let oi := forallb (fun a => obs_final_eqb final (snd a)) alts in
   [id; mask; mfin; first; sp; spl; if sp_alts then 1 else 0; if spl_alts then 1 else 0; if oi then 1 else 0;
-   Z.of_nat (List.length es)].
+   Z.of_nat (List.length es); valid_hosts_run os 1; transient_run [] os 1].
 
 (* ---- C03: replay the implementation's own change batches into a shadow ---- *)
 
@@ -491,7 +542,14 @@ Definition attached_vsr (ob : obs) (r : vsroute) : bool :=
 (* 0 = the last report about the object is truthful; 1 = active but last report is not a success;
    2 = not applied but last report is a success (or there is none); 3 = attached minion without any
    valid path whose last report carries no warning *)
-Definition truthful (cf : cfg) (ob : obs) (last : smap report) (k : string) (e : event) : Z :=
+(* does the minion serve at least one of its paths according to the object set alone: for some path it is the
+   least claimant among the minions of its master's host *)
+Definition minion_serves (o : objs) (i : ingress) : bool :=
+  existsb (fun p => match least (claimants (path_claims (o_ings o) (host0 i)) p) with
+                    | Some y => String.eqb (fst y) (key_of_ing i)
+                    | None => false end) (i_paths i).
+
+Definition truthful (cf : cfg) (o : objs) (ob : obs) (last : smap report) (k : string) (e : event) : Z :=
   let rep := lookup k last in
   let want_ok (active : bool) : Z :=
     match rep with
@@ -504,8 +562,11 @@ Definition truthful (cf : cfg) (ob : obs) (last : smap report) (k : string) (e :
       else if negb valid then want_ok false
       else if is_minion i then
         match attached_minion ob (key_of_ing i) with
-        | Some true => want_ok true
-        | Some false => match rep with Some (ROk true) => 0 | Some (ROk false) => 3 | Some _ => 0 | None => 3 end
+        | Some _ =>
+            (* attached: whether it serves a path is decided by the object set, not by the ValidPaths the
+               implementation computed *)
+            if minion_serves o i then want_ok true
+            else match rep with Some (ROk true) => 0 | Some (ROk false) => 3 | Some _ => 0 | None => 3 end
         | None => want_ok false
         end
       else want_ok (owns_some_host ob k)
@@ -515,6 +576,28 @@ Definition truthful (cf : cfg) (ob : obs) (last : smap report) (k : string) (e :
       if negb valid then want_ok false
       else want_ok (owns_some_host ob k || owns_some_listener ob k)
   | _ => 0
+  end.
+
+(* reports are about objects, not names: when an object is deleted, or replaced by another object of the same
+   name (different UID: deleted and created again before the worker ran), what was said about the old one does
+   not count for the new one *)
+Definition event_uid (e : event) : string :=
+  match e with
+  | EIng i _ _ => m_uid (i_meta i) | EVS v _ _ => m_uid (v_meta v)
+  | EVSR r _ _ => m_uid (r_meta r) | ETS t _ _ => m_uid (t_meta t)
+  | _ => "" end.
+
+Definition forget (cl : smap event) (e : event) (last : smap report) : smap report :=
+  match e with
+  | EDelIng k => remove ("Ingress/" ++ k) last
+  | EDelVS k => remove ("VirtualServer/" ++ k) last
+  | EDelVSR k => remove ("VirtualServerRoute/" ++ k) last
+  | EDelTS k => remove ("TransportServer/" ++ k) last
+  | _ => match event_obj e with
+         | Some (k, _) => match lookup k cl with
+                          | Some p => if String.eqb (event_uid p) (event_uid e) then last else remove k last
+                          | None => last end
+         | None => last end
   end.
 
 (* the validation error of the object being processed is reported in this very step *)
@@ -529,16 +612,17 @@ Definition error_reported (e : event) (ob : obs) : bool :=
   end.
 
 (* returns (step, code, object index) of the first untruthful accumulated report; code 9 = validation error not reported *)
-Fixpoint c05_run (cf : cfg) (cl : smap event) (last : smap report) (es : list event) (os : list obs) (i : Z) : Z * Z :=
+Fixpoint c05_run (cf : cfg) (o : objs) (cl : smap event) (last : smap report) (es : list event) (os : list obs) (i : Z) : Z * Z :=
   match es, os with
   | e :: er, ob :: orest =>
+      let o' := apply_event o e in
       let cl' := cluster_apply cl e in
-      let last' := fold_left (fun m kr => insert (fst kr) (snd kr) m) (reports_of_step_ev e (own_in_cluster cl') ob) last in
+      let last' := fold_left (fun m kr => insert (fst kr) (snd kr) m) (reports_of_step_ev e (own_in_cluster cl') ob) (forget cl e last) in
       if negb (error_reported e ob) then (i, 9)
       else
-        match filter_map (fun kv => let d := truthful cf ob last' (fst kv) (snd kv) in if d =? 0 then None else Some d) cl' with
+        match filter_map (fun kv => let d := truthful cf o' ob last' (fst kv) (snd kv) in if d =? 0 then None else Some d) cl' with
         | d :: _ => (i, d)
-        | [] => c05_run cf cl' last' er orest (i + 1)
+        | [] => c05_run cf o' cl' last' er orest (i + 1)
         end
   | _, _ => (0, 0)
   end.
@@ -546,17 +630,18 @@ Fixpoint c05_run (cf : cfg) (cl : smap event) (last : smap report) (es : list ev
 Definition c05_case (id : Z) (c : cfg) (es : list event) (os : list obs) (final : obs)
            (alts : list (list event * obs)) : list Z :=
   let '(mask, first, s) := compare_run c init es os 1 0 0 in
-  let '(step_, code) := c05_run c [] [] es os 1 in
+  let '(step_, code) := c05_run c objs0 [] [] es os 1 in
   [id; mask; first; step_; code; Z.of_nat (List.length es)].
 
 (* debugging aid: the objects whose last report is not truthful at the first failing step *)
-Fixpoint c05_who (cf : cfg) (cl : smap event) (last : smap report) (es : list event) (os : list obs) : list (string * Z) :=
+Fixpoint c05_who (cf : cfg) (o : objs) (cl : smap event) (last : smap report) (es : list event) (os : list obs) : list (string * Z) :=
   match es, os with
   | e :: er, ob :: orest =>
+      let o' := apply_event o e in
       let cl' := cluster_apply cl e in
-      let last' := fold_left (fun m kr => insert (fst kr) (snd kr) m) (reports_of_step_ev e (own_in_cluster cl') ob) last in
-      match filter_map (fun kv => let d := truthful cf ob last' (fst kv) (snd kv) in if d =? 0 then None else Some (fst kv, d)) cl' with
-      | [] => c05_who cf cl' last' er orest
+      let last' := fold_left (fun m kr => insert (fst kr) (snd kr) m) (reports_of_step_ev e (own_in_cluster cl') ob) (forget cl e last) in
+      match filter_map (fun kv => let d := truthful cf o' ob last' (fst kv) (snd kv) in if d =? 0 then None else Some (fst kv, d)) cl' with
+      | [] => c05_who cf o' cl' last' er orest
       | l => l
       end
   | _, _ => []
@@ -614,11 +699,12 @@ Record ctl := mkCtl { ct_events : list (string * Z); ct_writes : list string; ct
 (* returns (first step where the model's reports differ from the recorded Events,
             first step whose accumulated real Events are not truthful, its code,
             first step at which a foreign-class object received an Event or a status write) *)
-Fixpoint ctl_run (cf : cfg) (cl : smap event) (last : smap report) (es : list event) (os : list obs) (cs : list ctl)
+Fixpoint ctl_run (cf : cfg) (o : objs) (cl : smap event) (last : smap report) (es : list event) (os : list obs) (cs : list ctl)
          (i : Z) (acc : Z * Z * Z * Z * (Z * Z)) : Z * Z * Z * Z * (Z * Z) :=
   match es, os, cs with
   | e :: er, ob :: orest, ct :: crest =>
       let '(dx, ds, dc, df, (dd, dk)) := acc in
+      let o' := apply_event o e in
       let dcode := delivery_code cl e (ct_probe ct) in
       let cl' := cluster_apply cl e in
       (* success with and without warning are not distinguished here: the Configurator adds warnings of its
@@ -627,11 +713,11 @@ Fixpoint ctl_run (cf : cfg) (cl : smap event) (last : smap report) (es : list ev
       let model := zsort (map (fun kr => (fst kr, merge (report_code (snd kr))))
                               (reports_of_step_ev e (own_in_cluster cl') ob +++ flat_map synthetic_vsr_reports (ob_changes ob))) in
       let real := zsort (map (fun kr => (fst kr, merge (snd kr))) (ct_events ct)) in
-      let last' := fold_left (fun m kr => insert (fst kr) (report_of_code (snd kr)) m) (ct_events ct) last in
-      let bad := filter_map (fun kv => let d := truthful cf (ct_obs ct) last' (fst kv) (snd kv) in if d =? 0 then None else Some d) cl' in
+      let last' := fold_left (fun m kr => insert (fst kr) (report_of_code (snd kr)) m) (ct_events ct) (forget cl e last) in
+      let bad := filter_map (fun kv => let d := truthful cf o' (ct_obs ct) last' (fst kv) (snd kv) in if d =? 0 then None else Some d) cl' in
       (* no object that is of a foreign class now (the one of this event or any other) is named by an Event or a status write *)
       let foreign := existsb (fun x => foreign_in_cluster cl' (fst x)) (ct_events ct) || existsb (foreign_in_cluster cl') (ct_writes ct) in
-      ctl_run cf cl' last' er orest crest (i + 1)
+      ctl_run cf o' cl' last' er orest crest (i + 1)
               (if (dx =? 0) && negb (eqb_of evs_dec model real) then i else dx,
                if (ds =? 0) && (nonempty bad || (ct_verr_expected ct && negb (ct_verr_reported ct))) then i else ds,
                if (ds =? 0) && (nonempty bad || (ct_verr_expected ct && negb (ct_verr_reported ct)))
@@ -650,5 +736,5 @@ Definition leader_foreign (es : list event) (writes : list string) (pol_writes :
 
 Definition ctl_case (id : Z) (c : cfg) (es : list event) (os : list obs) (final : obs)
            (alts : list (list event * obs)) (cs : list ctl) (lw : list string) (pw : list (string * string)) : list Z :=
-  let '(dx, ds, dc, df, (dd, dk)) := ctl_run c [] [] es os cs 1 (0, 0, 0, 0, (0, 0)) in
+  let '(dx, ds, dc, df, (dd, dk)) := ctl_run c objs0 [] [] es os cs 1 (0, 0, 0, 0, (0, 0)) in
   [id; dx; ds; dc; df; Z.of_nat (List.length es); dd; dk; leader_foreign es lw pw].
